@@ -10,13 +10,13 @@ use crate::ser::{HoleMode, Ser};
 use crate::term::{free_variables, Term};
 use std::collections::{BTreeSet, HashSet};
 
-fn fv(t: &Term, c: usize) -> BTreeSet<usize> {
+pub fn fv(t: &Term, c: usize) -> BTreeSet<usize> {
     let mut s = HashSet::new();
     free_variables(t, c, &mut s);
     s.into_iter().collect()
 }
 
-fn set_str(s: &BTreeSet<usize>) -> String {
+pub fn set_str(s: &BTreeSet<usize>) -> String {
     format!("[{}]", s.iter().map(|x| x.to_string()).collect::<Vec<_>>().join(" "))
 }
 
